@@ -4,19 +4,19 @@ C15 helper lemmas: how one segment (`stepPc`) changes the store, lock bookkeepin
 -/
 namespace Share
 
-@[simp] theorem afterShare_fst (prog : Prog) (g : Store) (r : Res) : (afterShare prog g r).1 = g := by
+@[simp] theorem afterShare_fst {cfg : Cfg} (prog : Prog) (g : Store) (r : Res) : (afterShare cfg prog g r).1 = g := by
   unfold afterShare
   split
   · rfl
   · split <;> (try split) <;> (try split) <;> rfl
 
-@[simp] theorem finishGc_fst (prog : Prog) (g : Store) (r : Res) : (finishGc prog g r).1 = g := by
+@[simp] theorem finishGc_fst {cfg : Cfg} (prog : Prog) (g : Store) (r : Res) : (finishGc cfg prog g r).1 = g := by
   unfold finishGc
   split
   · split <;> simp
   · rfl
 
-@[simp] theorem gcStart_fst (prog : Prog) (g : Store) : (gcStart prog g).1 = g := by
+@[simp] theorem gcStart_fst {cfg : Cfg} (prog : Prog) (g : Store) : (gcStart cfg prog g).1 = g := by
   unfold gcStart
   split
   · simp
@@ -33,17 +33,17 @@ namespace Share
   unfold gcNext
   split <;> simp
 
-theorem afterShare_pc (prog : Prog) (g : Store) (r : Res) :
-    (∃ r', (afterShare prog g r).2 = .done r') ∨ (∃ x, (afterShare prog g r).2 = .bUnlink x) ∨
-    (∃ x, (afterShare prog g r).2 = .bSymlink x) := by
+theorem afterShare_pc {cfg : Cfg} (prog : Prog) (g : Store) (r : Res) :
+    (∃ r', (afterShare cfg prog g r).2 = .done r') ∨ (∃ x, (afterShare cfg prog g r).2 = .bUnlink x) ∨
+    (∃ x, (afterShare cfg prog g r).2 = .bSymlink x) ∨ (afterShare cfg prog g r).2 = .uOpen := by
   unfold afterShare
   split
   · exact Or.inl ⟨_, rfl⟩
   · split <;> (try split) <;> (try split) <;> simp
 
-theorem finishGc_pc (prog : Prog) (g : Store) (r : Res) :
-    (∃ r', (finishGc prog g r).2 = .done r') ∨ (∃ x, (finishGc prog g r).2 = .bUnlink x) ∨
-    (∃ x, (finishGc prog g r).2 = .bSymlink x) := by
+theorem finishGc_pc {cfg : Cfg} (prog : Prog) (g : Store) (r : Res) :
+    (∃ r', (finishGc cfg prog g r).2 = .done r') ∨ (∃ x, (finishGc cfg prog g r).2 = .bUnlink x) ∨
+    (∃ x, (finishGc cfg prog g r).2 = .bSymlink x) ∨ (finishGc cfg prog g r).2 = .uOpen := by
   unfold finishGc
   split
   · split
@@ -51,19 +51,19 @@ theorem finishGc_pc (prog : Prog) (g : Store) (r : Res) :
     · exact afterShare_pc _ _ _
   · exact Or.inl ⟨_, rfl⟩
 
-@[simp] theorem afterShare_notEX (prog : Prog) (g : Store) (r : Res) : (afterShare prog g r).2.holdsEX = false := by
-  rcases afterShare_pc prog g r with ⟨_, h⟩ | ⟨_, h⟩ | ⟨_, h⟩ <;> simp [h, Pc.holdsEX]
+@[simp] theorem afterShare_notEX {cfg : Cfg} (prog : Prog) (g : Store) (r : Res) : (afterShare cfg prog g r).2.holdsEX = false := by
+  rcases afterShare_pc (cfg := cfg) prog g r with ⟨_, h⟩ | ⟨_, h⟩ | ⟨_, h⟩ | h <;> simp [h, Pc.holdsEX]
 
-@[simp] theorem afterShare_notSH (prog : Prog) (g : Store) (r : Res) : (afterShare prog g r).2.holdsSH = false := by
-  rcases afterShare_pc prog g r with ⟨_, h⟩ | ⟨_, h⟩ | ⟨_, h⟩ <;> simp [h, Pc.holdsSH]
+@[simp] theorem afterShare_notSH {cfg : Cfg} (prog : Prog) (g : Store) (r : Res) : (afterShare cfg prog g r).2.holdsSH = false := by
+  rcases afterShare_pc (cfg := cfg) prog g r with ⟨_, h⟩ | ⟨_, h⟩ | ⟨_, h⟩ | h <;> simp [h, Pc.holdsSH]
 
-@[simp] theorem finishGc_notEX (prog : Prog) (g : Store) (r : Res) : (finishGc prog g r).2.holdsEX = false := by
-  rcases finishGc_pc prog g r with ⟨_, h⟩ | ⟨_, h⟩ | ⟨_, h⟩ <;> simp [h, Pc.holdsEX]
+@[simp] theorem finishGc_notEX {cfg : Cfg} (prog : Prog) (g : Store) (r : Res) : (finishGc cfg prog g r).2.holdsEX = false := by
+  rcases finishGc_pc (cfg := cfg) prog g r with ⟨_, h⟩ | ⟨_, h⟩ | ⟨_, h⟩ | h <;> simp [h, Pc.holdsEX]
 
-@[simp] theorem finishGc_notSH (prog : Prog) (g : Store) (r : Res) : (finishGc prog g r).2.holdsSH = false := by
-  rcases finishGc_pc prog g r with ⟨_, h⟩ | ⟨_, h⟩ | ⟨_, h⟩ <;> simp [h, Pc.holdsSH]
+@[simp] theorem finishGc_notSH {cfg : Cfg} (prog : Prog) (g : Store) (r : Res) : (finishGc cfg prog g r).2.holdsSH = false := by
+  rcases finishGc_pc (cfg := cfg) prog g r with ⟨_, h⟩ | ⟨_, h⟩ | ⟨_, h⟩ | h <;> simp [h, Pc.holdsSH]
 
-@[simp] theorem gcStart_notEX (prog : Prog) (g : Store) : (gcStart prog g).2.holdsEX = false := by
+@[simp] theorem gcStart_notEX {cfg : Cfg} (prog : Prog) (g : Store) : (gcStart cfg prog g).2.holdsEX = false := by
   unfold gcStart
   split
   · simp
@@ -71,7 +71,7 @@ theorem finishGc_pc (prog : Prog) (g : Store) (r : Res) :
     · simp
     · rfl
 
-@[simp] theorem gcStart_notSH (prog : Prog) (g : Store) : (gcStart prog g).2.holdsSH = false := by
+@[simp] theorem gcStart_notSH {cfg : Cfg} (prog : Prog) (g : Store) : (gcStart cfg prog g).2.holdsSH = false := by
   unfold gcStart
   split
   · simp
@@ -92,9 +92,9 @@ theorem finishGc_pc (prog : Prog) (g : Store) (r : Res) :
   · simp
   · rfl
 
-theorem stepPc_notEX (H : Nat → Nat) (ff : Bool) (prog : Prog) (exO shO : Bool) (g : Store) (pc : Pc)
+theorem stepPc_notEX (H : Nat → Nat) (cfg : Cfg) (prog : Prog) (exO shO : Bool) (g : Store) (pc : Pc)
     (hpc : pc.holdsEX = false) (hl : pc = .gLock → (exO || shO) = true) :
-    (stepPc H ff prog exO shO g pc).2.holdsEX = false := by
+    (stepPc H cfg prog exO shO g pc).2.holdsEX = false := by
   cases pc
   case gLock => simp [stepPc, hl rfl]; rfl
   case gScanOpen => simp [Pc.holdsEX] at hpc
@@ -104,9 +104,9 @@ theorem stepPc_notEX (H : Nat → Nat) (ff : Bool) (prog : Prog) (exO shO : Bool
   all_goals (repeat' split)
   all_goals first | rfl | simp only [afterShare_notEX, finishGc_notEX, gcStart_notEX]
 
-theorem stepPc_notSH (H : Nat → Nat) (ff : Bool) (prog : Prog) (exO shO : Bool) (g : Store) (pc : Pc)
+theorem stepPc_notSH (H : Nat → Nat) (cfg : Cfg) (prog : Prog) (exO shO : Bool) (g : Store) (pc : Pc)
     (hpc : pc.holdsSH = false) (hl : pc = .uLockRepo → exO = true) :
-    (stepPc H ff prog exO shO g pc).2.holdsSH = false := by
+    (stepPc H cfg prog exO shO g pc).2.holdsSH = false := by
   cases pc
   case uLockRepo => simp [stepPc, hl rfl]; rfl
   case uOpenPkg => simp [Pc.holdsSH] at hpc
@@ -155,14 +155,14 @@ def MetaOk (pc : Pc) (d : PkgDir) (info : Option (JFile Meta)) : Prop :=
   (∃ m' r, pc = .uClosePkg (some m') r ∧ info = some (.valid m'))
 
 /-- every way in which one segment changes the directory at a final path -/
-theorem stepPc_final (H : Nat → Nat) (ff : Bool) (prog : Prog) (exO shO : Bool) (g : Store) (pc : Pc) (b' : Bid) :
-    (stepPc H ff prog exO shO g pc).1.final b' = g.final b'
+theorem stepPc_final (H : Nat → Nat) (cfg : Cfg) (prog : Prog) (exO shO : Bool) (g : Store) (pc : Pc) (b' : Bid) :
+    (stepPc H cfg prog exO shO g pc).1.final b' = g.final b'
     ∨ (∃ tmp, pc = .iRename tmp ∧ b' = opBid prog ∧ g.final b' = none ∧
-        (stepPc H ff prog exO shO g pc).1.final b' = some tmp)
+        (stepPc H cfg prog exO shO g pc).1.final b' = some tmp)
     ∨ (∃ rm c rest t d te, pc = .gMove rm (c :: rest) t d te ∧ c.bid = b' ∧ g.final b' ≠ none ∧
-        (stepPc H ff prog exO shO g pc).1.final b' = none)
+        (stepPc H cfg prog exO shO g pc).1.final b' = none)
     ∨ (∃ d info mt, b' = opBid prog ∧ g.final b' = some d ∧
-        (stepPc H ff prog exO shO g pc).1.final b' = some { d with info := info, mtime := mt } ∧ MetaOk pc d info) := by
+        (stepPc H cfg prog exO shO g pc).1.final b' = some { d with info := info, mtime := mt } ∧ MetaOk pc d info) := by
   cases pc
   case iRename tmp =>
     unfold stepPc; simp only
